@@ -1065,7 +1065,30 @@ impl<'t> Gen<'t> {
         let hm = self.hof_module.clone().unwrap();
         let was = cx.in_lambda;
         let saved = cx.rec.take();
-        let e = if self.t.bool(1, 2) {
+        let e = if matches!(ty, Ty::Int | Ty::Bool | Ty::Str) && self.t.bool(1, 3) {
+          // the lambda's body is a generic constructor call: without its explicit type arguments it
+          // can only be typed from the expected (hinted) return type
+          let om = vec!["std".to_string(), "option".to_string()];
+          let oty = Ty::Class(om.clone(), "Option".into(), vec![ty.clone()]);
+          let v = self.fresh("h");
+          cx.env.push((v.clone(), oty.clone()));
+          cx.in_lambda = true;
+          let hidden_this = self.hide_this(cx);
+          let bd = self.t.choose(2) as u32;
+          let body = self.construct(&om, "Option", &[ty.clone()], cx, bd);
+          cx.in_lambda = was;
+          if hidden_this.is_some() {
+            cx.this = hidden_this;
+          }
+          cx.env.pop();
+          let x = self.construct(&om, "Option", &[ty.clone()], cx, 1);
+          let lam = Expr::new(Ty::Fn(vec![oty.clone()], Box::new(oty.clone())), EK::Lambda { params: vec![(v, oty.clone())], annotated: false, body: Box::new(body) });
+          let call = Expr::new(oty.clone(), EK::StaticCall { module: hm, class: "Hof".into(), member: "applyTwice".into(), targs: vec![], args: vec![lam, x] });
+          let w = self.fresh("o");
+          let els = self.leaf(ty, cx);
+          self.feat("hinted-lambda-body-needs-context");
+          Expr::new(ty.clone(), EK::IfLet { pat: Pat::Variant("Some".into(), vec![Pat::Var(w.clone(), ty.clone())]), scrut: Box::new(call), then: Box::new(Expr::new(ty.clone(), EK::Var(w))), els: Box::new(els) })
+        } else if self.t.bool(1, 2) {
           let v = self.fresh("h");
           cx.env.push((v.clone(), ty.clone()));
           cx.in_lambda = true;
